@@ -1,5 +1,4 @@
-import CollectionsC.Properties.C05
-import CollectionsC.Proofs.DequeCross
+import CollectionsC.Properties.C06Deque
 /-! # C16 (deque part) — rejected operations are inert, for every argument value
 
 `size_t` arguments are modelled as ℕ, so "every index in the whole size_t domain" is "every `i : ℕ`"
@@ -10,9 +9,12 @@ namespace CC.Properties.C16Deque
 open CC CC.Properties.C05
 
 /-- **error_is_inert**: whenever an operation reports a status other than `CC_OK` — out of range, empty,
-value not found, and also `CC_ERR_ALLOC` — the **whole physical state** of the deque is unchanged -/
+value not found, and also `CC_ERR_ALLOC` — the **whole physical state** of the deque is unchanged, and so is
+the ledger (both balances, fault flag; the other triple untouched) -/
 theorem error_is_inert (d : Deque) (m : Mem) (op : Op) (hi : d.Inv) (s : Stat)
-    (hst : (stepM d m op).1.st = some s) (hne : s ≠ .ok) : (stepM d m op).2.1 = d := by
+    (hst : (stepM d m op).1.st = some s) (hne : s ≠ .ok) :
+    (stepM d m op).2.1 = d ∧ Deque.memSame d.triple (stepM d m op).2.2 m := by
+  refine ⟨?_, (C06Deque.step_safe d m op hi).2.1⟩
   have hra := refused_atomic d m
   cases op with
   | addFirst x =>
@@ -142,16 +144,21 @@ theorem zip_error_is_inert (it : Deque.Iter) (d1 d2 : Deque) (x y : Nat) (m : Me
 /-- the constructor accepts every configured capacity (0 and non-powers of two are rounded up by
 `upper_pow_two`), so there is no invalid-capacity status for the deque; the only failure is a refused
 allocation, which yields no object -/
-theorem constructor_accepts_every_capacity (confCap : Nat) (m : Mem) (hs : m.sched = [])
+theorem constructor_accepts_every_capacity (confCap : Nat) (t : Triple) (m : Mem) (hn : Deque.neverRefuses t m)
     (hc : confCap ≤ Gen.MAX_POW_TWO) :
-    (Deque.new confCap m).1 = .ok ∧ ∃ d, (Deque.new confCap m).2.1 = some d ∧ d.Inv ∧ confCap ≤ d.cap := by
-  rcases Deque.new_spec confCap m with ⟨n1, d, n2, n3, _, n5, _⟩ | ⟨_, _, _, n4⟩
+    (Deque.new confCap t m).1 = .ok ∧ ∃ d, (Deque.new confCap t m).2.1 = some d ∧ d.Inv ∧ confCap ≤ d.cap := by
+  rcases Deque.new_spec confCap t m with ⟨n1, d, n2, n3, _, n5, _⟩ | ⟨_, _, _, n4⟩
   · exact ⟨n1, d, n2, n3, by rw [n5]; exact Deque.upperPow2_ge confCap hc⟩
   · exfalso
-    have h1 := Deque.alloc_sched_nil m hs
-    have h2 := Deque.alloc_sched_nil _ h1.2
+    have h1 := Deque.allocT_of_neverRefuses t m hn
+    have h2 := Deque.allocT_of_neverRefuses t _ h1.2.1
     rcases n4 with n4 | n4
     · rw [n4] at h1; exact absurd h1.1 (by decide)
     · rw [n4] at h2; exact absurd h2.1 (by decide)
+
+/-- non-vacuity: `get_at(size)` on an exactly full wrapped deque is rejected and inert -/
+example : (stepM (Deque.mk 4 4 3 3 [12, 13, 14, 11] .conf) {} (.getAt 4)).1 = ⟨some .errOutOfRange, none⟩ ∧
+    (stepM (Deque.mk 4 4 3 3 [12, 13, 14, 11] .conf) {} (.addAt 9 4)).2.1 = Deque.mk 4 4 3 3 [12, 13, 14, 11] .conf := by
+  decide
 
 end CC.Properties.C16Deque
